@@ -1167,6 +1167,27 @@ class ParserField:
         return self.field.schema_annotations
 
     @classmethod
+    def evaluate_annotated(cls, ref: ForwardRef, global_vars: Optional[dict]):
+        import builtins
+
+        class Names(dict):
+            def __missing__(self, key):
+                if global_vars and key in global_vars:
+                    return global_vars[key]
+                if hasattr(builtins, key):
+                    return getattr(builtins, key)
+                return ForwardRef(key)
+
+        code = getattr(ref, "__forward_code__", None)
+        if code is None:
+            return None
+        try:
+            value = eval(code, global_vars if global_vars is not None else {}, Names())
+        except Exception:  # noqa
+            return None
+        return value if is_annotated(value) else None
+
+    @classmethod
     def generate(
         cls,
         attname: str,
@@ -1204,6 +1225,14 @@ class ParserField:
                 force_clear=force_clear_refs,
                 evaluate_only=True
             )
+
+            if isinstance(annotation, ForwardRef) and 'Annotated' in annotation.__forward_arg__:
+                # 'Annotated[List[Later], Field(...)]' (postponed evaluation) with a name that is not defined yet:
+                # the Field inside belongs to the declaration and is needed now. Evaluated with the unknown names
+                # standing for themselves as references, it is the spelling Annotated[List['Later'], Field(...)]
+                tolerant = cls.evaluate_annotated(annotation, global_vars)
+                if tolerant is not None:
+                    annotation = tolerant
 
         field = cls.get_field(annotation, default, **kwargs)
 
